@@ -476,7 +476,7 @@ var c13ArcBoundary = []string{"0", "1", "39", "40", "47", "127", "128", "16383",
 	"268435456", "2147483647", "2147483648", "4294967295", "4294967296", "34359738367", "34359738368", "9223372036854775807",
 	"9223372036854775808", "18446744073709551615", "18446744073709551616", "329800735698586629295641978511506172918"}
 
-func randOID(r *Rng) []byte {
+func c13_randOID(r *Rng) []byte {
 	a0 := r.Intn(3)
 	var a1 *big.Int
 	if a0 < 2 {
@@ -527,7 +527,7 @@ func typedContent(r *Rng, tag int) []byte {
 	case 5:
 		b = [][]byte{{}, {}, {}, {0}}[r.Intn(4)]
 	case 6:
-		b = randOID(r)
+		b = c13_randOID(r)
 	case 12:
 		b = randUTF8(r)
 	case 18:
